@@ -40,6 +40,17 @@ fn check_label(cfg: &Cfg, method: &str, class: &str, paths: &[&str], e: &ErrInfo
         ));
         return;
     }
+    // a call on ONE entry (not a recursive or two-path operation) fails at that entry or at one of its ancestors: a
+    // label strictly below the call path is not "the descendant at which the operation failed" — there is none
+    let single_entry = matches!(method, "create_dir" | "create_file" | "append_file" | "remove_file" | "remove_dir" | "open_read" | "open_file" | "read_dir" | "metadata" | "exists" | "is_file" | "is_dir" | "set_time" | "read_to_string");
+    if single_entry && paths.len() == 1 && is_under(&e.path, paths[0]) {
+        acc.violate(mk(
+            format!("descendant-label|{}|{}|{}|{}", method, class, e.kind.name(), cfg.family()),
+            format!("{} on {:?} (one entry) returned an error labelled {:?}, a path below the call path: {}", method, paths, e.path, e.display),
+            e.to_json(),
+        ));
+        return;
+    }
     if !paths.iter().any(|p| related(&e.path, p)) {
         let inner = e.path.contains("/__alt") || e.path.contains("/__lay") || e.path.contains(".whiteout");
         acc.violate(mk(
